@@ -32,6 +32,7 @@ type OblResult struct {
 	Model    map[string]string `json:"model,omitempty"`
 	Output   string   `json:"solver_output,omitempty"`
 	Smoke    bool     `json:"-"`
+	FailSMT  string   `json:"-"` // the refuted query (for a second, minimising solver run before replay)
 	backends map[string]int
 }
 
@@ -1187,6 +1188,7 @@ type siteResult struct {
 	o   *Obl
 	res SolveResult
 	q   int
+	smt string
 }
 
 func (x *fnExec) discharge(cfg Config, filter func(o *Obl) bool) []*OblResult {
@@ -1207,7 +1209,7 @@ func (x *fnExec) discharge(cfg Config, filter func(o *Obl) bool) []*OblResult {
 		if o.Smoke {
 			// vacuity: one reachable return is enough; try the returns one after the other
 			if smokeDone {
-				results[i] = siteResult{o, SolveResult{Status: "sat", Backend: "skipped"}, 0}
+				results[i] = siteResult{o, SolveResult{Status: "sat", Backend: "skipped"}, 0, ""}
 				continue
 			}
 			termMu.Lock()
@@ -1222,11 +1224,11 @@ func (x *fnExec) discharge(cfg Config, filter func(o *Obl) bool) []*OblResult {
 			if r.Status == "sat" || r.Status == "unknown" || r.Status == "timeout" {
 				smokeDone = true
 			}
-			results[i] = siteResult{o, r, 0}
+			results[i] = siteResult{o, r, 0, ""}
 			continue
 		}
 		if o.goal == True {
-			results[i] = siteResult{o, SolveResult{Status: "unsat", Backend: "trivial"}, 0}
+			results[i] = siteResult{o, SolveResult{Status: "unsat", Backend: "trivial"}, 0, ""}
 			continue
 		}
 		termMu.Lock()
@@ -1330,7 +1332,7 @@ func (x *fnExec) discharge(cfg Config, filter func(o *Obl) bool) []*OblResult {
 				rs := solve(fmt.Sprintf("%s.s%d", name, k), s, nil, to, false)
 				if rs.Status == "unsat" {
 					mu.Lock()
-					results[i] = siteResult{o, rs, nq}
+					results[i] = siteResult{o, rs, nq, ""}
 					mu.Unlock()
 					return
 				}
@@ -1339,7 +1341,7 @@ func (x *fnExec) discharge(cfg Config, filter func(o *Obl) bool) []*OblResult {
 					if rp, ok := pathSplit(); ok {
 						rp.Secs += rs.Secs
 						mu.Lock()
-						results[i] = siteResult{o, rp, nq}
+						results[i] = siteResult{o, rp, nq, ""}
 						mu.Unlock()
 						return
 					}
@@ -1447,7 +1449,7 @@ func (x *fnExec) discharge(cfg Config, filter func(o *Obl) bool) []*OblResult {
 				// smoke tests want a genuine model; an over-approximate sat is good enough to show non-vacuity of the hypotheses used
 			}
 			mu.Lock()
-			results[i] = siteResult{o, r, nq}
+			results[i] = siteResult{o, r, nq, smt}
 			mu.Unlock()
 		}()
 	}
@@ -1471,6 +1473,7 @@ func (x *fnExec) discharge(cfg Config, filter func(o *Obl) bool) []*OblResult {
 		case "sat":
 			if ag.Status != "refuted" {
 				ag.Status = "refuted"
+				ag.FailSMT = sr.smt
 				ag.FailSite = o.Site
 				ag.Model = map[string]string{}
 				for k, val := range sr.res.Model {
